@@ -606,16 +606,18 @@ func (vfs *OrefaFS) OpenFile(name string, flag int, perm fs.FileMode) (avfs.File
 		}
 
 		vfs.mu.Lock()
-		defer vfs.mu.Unlock()
 
-		// test for race conditions when opening file in exclusive mode.
-		_, childOk = vfs.nodes[absPath]
-		if childOk && om&avfs.OpenCreateExcl != 0 {
-			return (*OrefaFile)(nil), &fs.PathError{Op: op, Path: name, Err: vfs.err.FileExists}
+		// The file may have been created since the index was read:
+		// it is then opened as an existing file.
+		child, childOk = vfs.nodes[absPath]
+		if !childOk {
+			child = vfs.createFile(parent, absPath, fileName, perm)
 		}
 
-		child = vfs.createFile(parent, absPath, fileName, perm)
-	} else {
+		vfs.mu.Unlock()
+	}
+
+	if childOk {
 		if child.mode.IsDir() {
 			if om&avfs.OpenWrite != 0 {
 				return (*OrefaFile)(nil), &fs.PathError{Op: op, Path: name, Err: vfs.err.IsADirectory}
